@@ -132,7 +132,7 @@ def run(ctx):
             common.write_ndjson(b2, [x for t, x in enumerate(recs) if t != j])
             r2 = tlc_with_cfg(ctx, "ChallengerTrace", cfgt, "CTrace_neg2", extra={b2: "challenger_trace.ndjson"})
             if r1["ok"] or r2["ok"]:
-                raise common.MachineryError("challenger trace binding self-test failed (corrupted trace accepted)")
+                ctx.deferred.append("challenger trace binding self-test failed (corrupted trace accepted)")  # incomplete run (exit 2 unless a violation was reproduced); the remaining parts still run
             ctx.extra["trace_negative_selftests"] = 2
 
 
